@@ -32,6 +32,7 @@ type appCall struct {
 	waiting  bool
 	release  bool
 	gotCap   string
+	putApp   int // application capability placed in result pointer 0 (-1: none or not an application capability)
 	ctx      context.Context
 }
 
@@ -72,7 +73,7 @@ func (r *run) appImpl(a *appCap, ctx context.Context, call *server.Call) error {
 	s := r.s
 	args := call.Args()
 	token, flags := args.Uint64(0), args.Uint64(8)
-	ac := &appCall{token: token, app: a.id, flags: flags, startSeq: s.Seq(), ctx: ctx}
+	ac := &appCall{token: token, app: a.id, flags: flags, startSeq: s.Seq(), ctx: ctx, putApp: -1}
 	if a.shutdown > 0 && !r.hostile {
 		s.Fail("call_after_shutdown", "rpc.go:(*Conn).handleCall", fmt.Sprintf("call %d delivered to application capability %d after it was shut down", token, a.id))
 		return nil
@@ -108,6 +109,7 @@ func (r *run) appImpl(a *appCap, ctx context.Context, call *server.Call) error {
 		id := res.Message().AddCap(c)
 		res.SetPtr(0, capnp.NewInterface(res.Segment(), id).ToPtr())
 		res.SetUint64(8, uint64(appID+1))
+		ac.putApp = appID
 	}
 	switch {
 	case flags&fRetFresh != 0:
@@ -135,7 +137,13 @@ func (r *run) appImpl(a *appCap, ctx context.Context, call *server.Call) error {
 			return ac.err
 		}
 	} else {
-		n := s.Choice("app-yields", 3)
+		// 0..2 yields usually; 3..5 mean a late return (9..15 yields) that keeps
+		// the server's start gate closed while more traffic arrives
+		n := s.Choice("app-yields", 6)
+		if n > 2 {
+			n = n * 3
+			s.Probe("app_late_return")
+		}
 		for i := 0; i < n; i++ {
 			simrt.YieldAt("app")
 		}
